@@ -24,9 +24,11 @@ LEVEL_TEXT = ('static analysis: (D1) region_depth_count interpreted on one read 
               '(map = apply in submission order): every bin reaches region_depth_count / every chunk reaches bedcov in file order with the '
               "caller's min_mapq, alignment file and reference, the yielded rows are the worker's (a bin of a read-less contig may be answered "
               'without a fetch only with depth 0 / log2 -20), and the pileup rows come back in file order; BED names reach the count path whole '
-              '(C08 rule); to_chunks -- interpreted exhaustively for chunk sizes 1..3 and every line count 0..3c+1, with comment lines -- yields '
-              'every non-comment line exactly once, in order, in closed files of at most chunk_size lines. Does not decide that the number of '
-              "aligned bases is what samtools reports, nor equality of the two algorithms on real reads (bedcov's own flag filter is trusted).")
+              '(C08 rule); pileup rows keep their own names also when the regions file is not in genomic order; (D7) after ensure_bam_index the '
+              'index htslib opens first (X.bam.bai before X.bai) is never older than the alignment file (file model with modification times); '
+              'to_chunks -- interpreted exhaustively for chunk sizes 1..3 and every line count 0..3c+1, with comment lines -- yields every non-'
+              'comment line exactly once, in order, in closed files of at most chunk_size lines. Does not decide that the number of aligned bases'
+              " is what samtools reports, nor equality of the two algorithms on real reads (bedcov's own flag filter is trusted).")
 TECHNIQUE = ('abstract interpretation of the read filter / depth arithmetic over finite flag and order domains; registry of the samtools '
              'arguments; ordered fan-out rule; interpretation of the serial and parallel drivers with a pool stub; small-scope exhaustive '
              'interpretation of the chunker')
